@@ -485,7 +485,7 @@ func RunC16(r *mon.Run) {
 
 	// (a) grammar-derived valid templates, (b) their single-edit mutants
 	nt := r.Pick(40, 800)
-	handTemplates := []string{"/{a={b}}", "/v1/{a=x1/{b}/y1}", "/{a={b={c}}}/z", "/**/x1", "/{a=**}/x1", "/1a/{a}", "/-x/_y/.z", "/{rs}", "/{sub}", "/{m}", "/{a}/{a}", "/{rsub.a}", "/{sub.rs}", "/q", "/q/{a}", "/v/{sub.deep.s}:x", "/a-b/x.y/{a=q/*}", "/é/{b=ü/**}", "/{a}/{b}/{c}/{d}", "/v1/{sub.a=sh/*/bk/*}", "/q/**", "/*/{n}", "/{ws}", "/{ts}/x1"}
+	handTemplates := []string{"/v1/reports:7d", "/v1/idx/{a}:_search", "/v1/x:2fa", "/v1/y:-z", "/v1/z:.w", "/{a={b}}", "/v1/{a=x1/{b}/y1}", "/{a={b={c}}}/z", "/**/x1", "/{a=**}/x1", "/1a/{a}", "/-x/_y/.z", "/{rs}", "/{sub}", "/{m}", "/{a}/{a}", "/{rsub.a}", "/{sub.rs}", "/q", "/q/{a}", "/v/{sub.deep.s}:x", "/a-b/x.y/{a=q/*}", "/é/{b=ü/**}", "/{a}/{b}/{c}/{d}", "/v1/{sub.a=sh/*/bk/*}", "/q/**", "/*/{n}", "/{ws}", "/{ts}/x1"}
 	for i := 0; i < nt; i++ {
 		var tmpl string
 		if i < len(handTemplates) {
@@ -542,6 +542,17 @@ func RunC16(r *mon.Run) {
 				cand.Origin = "redeclare-base-same-short-name"
 			}
 			execCand(r, cand, rng)
+		}
+	}
+	// Tgt (registered first) binds a concrete verb on the implicit path of
+	// Oth, which is registered after it: overlap with an any-verb binding is
+	// unspecified, but it must never panic
+	for _, verb := range []string{"GET", "POST", "PATCH", "HEAD", "*"} {
+		for _, base := range []*RuleSet{nil, baseFor()} {
+			c16seq++
+			c := &Cand{Base: base, Origin: "claims-later-implicit-path", Pkg: fmt.Sprintf("vf.ci%d", c16seq)}
+			c.Rule = RuleSpec{Verb: verb, Tmpl: "/" + c.Pkg + ".Cnd/Oth", Body: "*", Via: "annotation"}
+			execCand(r, c, rng)
 		}
 	}
 	// own implicit path re-declared by the same method: valid
